@@ -631,7 +631,7 @@ real pass on every run).  `QV/Model/SemSrc.lean` gives the *source* tree a meani
 (`A2A.execProg`): an `if` evaluates its test once, to a value, before any statement of a branch runs; the
 branch whose polarity the value has runs, the other changes no value (`A2A.exec` under a guard stack;
 an assignment under the stack stores `wrapW gs new old`); a `for` assigns the loop variable each value in turn and
-runs the body in the environment so extended.  Class `A2A.okProg` (decidable): user names, statements `t = e`,
+runs the body in the environment so extended, then runs its `else` suite once (the subset has no `break`).  Class `A2A.okProg` (decidable): user names, statements `t = e`,
 `t op= e` (every operator but `**`), `if` / `elif` / `else` nested to any depth through else branches (no loop
 inside an `if`), `for v in <range of int literals | tuple | list of int / bool literals>` nested to any depth with
 `if`s inside, expression statements and `return e` at the top level, `e` plain (`A2A.plainE`: user variables,
@@ -754,7 +754,8 @@ example :
 open QV.A2A in
 /-- **C01_for** – `C01_if` is stated for `okProg`, which admits loops: this is the same statement, named for the
 loop case.  A `for` over a literal `range` / tuple / list is unrolled, the loop variable is assigned and replaced by
-each value (`visit_For`); the source-level meaning `execProg` iterates in the environment.  The hypothesis
+each value, and the `else` suite follows the last iteration (`visit_For`, since the repair 67bd58c); the source-level
+meaning `execProg` iterates in the environment and then runs the `else` suite.  The hypothesis
 `foldSs L = .ok L` excludes bodies in which a replaced loop variable meets another constant (`s + (i + 1)`): there
 the second constant-folding pass computes on python ints what `semW` would compute at the constant's `Qint` type. -/
 theorem C01_for (p : SProg) (hp : okProg p = true) (L : List SStmt) (st : RSt)
@@ -771,7 +772,8 @@ theorem C01_for (p : SProg) (hp : okProg p = true) (L : List SStmt) (st : RSt)
 
 open QV.A2A in
 /-- the hypotheses of `C01_for` are satisfiable: a loop over `range(1, 3)` with an augmented assignment that reads
-the loop variable and an `if` / `else` whose test reads it and whose branch re-assigns the test's variable -/
+the loop variable, an `if` / `else` whose test reads it and whose branch re-assigns the test's variable, and an `else`
+suite of the loop -/
 example :
     let p : SProg := ⟨[("a", .bool), ("r", .qint 2)], .qint 2,
       [.for_ (.name "i") (.call "range" [.const (.int 1), .const (.int 3)])
@@ -779,7 +781,7 @@ example :
           .ifs (.cmp "Gt" (.name "r") (.name "i"))
             [.assign [.name "r"] (.bin "BitXor" (.name "r") (.name "i")), .assign [.name "a"] (.unop "Not" (.name "a"))]
             [.assign [.name "a"] (.const (.bool true))]]
-         [],
+         [.aug (.name "r") "Add" (.const (.int 1))],
        .ret (some (.ite (.name "a") (.name "r") (.name "i")))]⟩
     okProg p = true ∧ rejectReserved ((aargsOf p).map (·.1)) p.body = .ok () ∧ foldSs p.body = .ok p.body ∧
       mtSs p.body = .ok p.body ∧
